@@ -118,10 +118,10 @@ func classifyErr(err error) int {
 type pair [2]uint64
 
 type Obs struct {
-	Head, HeadB, HeadH uint64
-	Canon              []pair
+	Head, HeadB, HeadH           uint64
+	Canon                        []pair
 	State, Hdr, Body, HNum, Rcpt []uint64
-	Look               []pair
+	Look                         []pair
 }
 
 func sortU(x []uint64) []uint64 { sort.Slice(x, func(i, j int) bool { return x[i] < x[j] }); return x }
@@ -297,14 +297,14 @@ func (w *world) judge(bc *core.BlockChain, db *logDB) []string {
 // ---- running ---------------------------------------------------------------------
 
 type crashRes struct {
-	Ok     bool
-	Head   uint64
-	Cons   bool
-	Mid    bool
-	RErr   int
-	RHead  uint64
-	FHead  uint64
-	Bad    []string
+	Ok    bool
+	Head  uint64
+	Cons  bool
+	Mid   bool
+	RErr  int
+	RHead uint64
+	FHead uint64
+	Bad   []string
 }
 
 type stepRes struct {
@@ -768,9 +768,9 @@ func replay(file string) {
 		os.Exit(2)
 	}
 	var h struct {
-		Case *Case `json:"case"`
-		Tree []BlockSpec `json:"tree"`
-		Batches [][]int `json:"batches"`
+		Case    *Case       `json:"case"`
+		Tree    []BlockSpec `json:"tree"`
+		Batches [][]int     `json:"batches"`
 	}
 	if err := json.Unmarshal(b, &h); err != nil {
 		fmt.Println(err)
@@ -786,7 +786,6 @@ func replay(file string) {
 	for j, s := range steps {
 		fmt.Printf("batch %d %v: %s, head %d, %d writes, %d crash points, consistent=%v %v\n", j, s.Batch, errNames[s.Err], s.Obs.Head, len(s.Log), len(s.Crash), s.Cons, s.Bad)
 	}
-	known := knownKeys()
 	rc := 0
 	seen := map[string]bool{}
 	for _, x := range res.OracleHits {
@@ -795,35 +794,10 @@ func replay(file string) {
 			continue
 		}
 		seen[hh.What] = true
-		if known[hh.What] {
-			fmt.Printf("known finding: %s (batch %d, after write %d) %s\n", hh.What, hh.Step, hh.Crash, hh.Note)
-			continue
-		}
 		fmt.Printf("ORACLE VIOLATION: %s (batch %d, after write %d) %s\n", hh.What, hh.Step, hh.Crash, hh.Note)
 		rc = 1
 	}
 	os.Exit(rc)
-}
-
-func knownKeys() map[string]bool {
-	out := map[string]bool{}
-	b, err := ioutil.ReadFile("/verif/known_findings.json")
-	if err != nil {
-		return out
-	}
-	var kf struct {
-		Findings []struct {
-			Property, Key, Status string
-		} `json:"findings"`
-	}
-	if json.Unmarshal(b, &kf) == nil {
-		for _, f := range kf.Findings {
-			if f.Property == "C11" && f.Status == "open" {
-				out[f.Key] = true
-			}
-		}
-	}
-	return out
 }
 
 func main() {
